@@ -355,10 +355,41 @@ let do_judgemate (t : string list) : string =
 
 let do_eval (t : string list) : string = string_of_z (evaluate (parse_game (Array.of_list t) 0))
 
+let do_fen (text : string) : string =
+  match new_from_fen (coq_of_string text) with
+  | FPanic -> "PANIC" | FNone -> "NONE" | FOk g -> game_fields g
+let do_position (text : string) : string =
+  match parse_position (coq_of_string text) with
+  | FPanic -> "PANIC" | FNone -> "NONE"
+  | FOk (g, keys) -> game_fields g ^ " | " ^ String.concat " " (List.map hex_of_n keys)
+
+(* session <extra> ## <delay>|<line> ## ... : the UCI main-loop model *)
+let do_session (text : string) : string =
+  match split_str " ## " text with
+  | hd :: items ->
+    let extra = n_of_string (String.trim hd) in
+    let input = List.map (fun it ->
+        match String.index_opt it '|' with
+        | Some i -> (nat_of_int (int_of_string (String.sub it 0 i)), coq_of_string (String.sub it (i + 1) (String.length it - i - 1)))
+        | None -> (nat_of_int 0, coq_of_string it)) items in
+    let (outs, st) = uci_session extra input in
+    let render = function
+      | OText s -> string_of_coq s
+      | OSearchOut o -> string_of_coq (render_out o)
+      | ODisplay g -> "DISPLAY 0x" ^ hex_of_n (make_zobrist_hash g)
+      | OEval v -> " " ^ string_of_z v
+      | OUnmodelled c -> "UNMODELLED " ^ string_of_coq c in
+    String.concat " ;; " (List.map render outs) ^ " ;; " ^ (match st with Exit -> "EXIT" | UPanic -> "PANIC" | Continue -> "OUT-OF-FUEL")
+  | [] -> "BADREQ"
+
 let () =
   try
     while true do
       let line = input_line stdin in
+      if String.length line >= 8 && String.sub line 0 8 = "session " then print_endline (do_session (String.sub line 8 (String.length line - 8)))
+      else if String.length line >= 4 && String.sub line 0 4 = "fen " then print_endline (do_fen (String.sub line 4 (String.length line - 4)))
+      else if String.length line >= 9 && String.sub line 0 9 = "position " then print_endline (do_position (String.sub line 9 (String.length line - 9)))
+      else
       let toks = List.filter (fun s -> s <> "") (String.split_on_char ' ' line) in
       (match toks with
        | [] -> ()
